@@ -144,7 +144,16 @@ func runCheck(prop, tier string, noReplay bool) int {
 		jobs = append(jobs, j)
 	}
 	t1 := time.Now()
+	budget := gCfg.BudgetS
+	if budget == 0 {
+		budget = 1200
+		if tier == "thorough" {
+			budget = 3 * 3600
+		}
+	}
+	gDeadline = time.Now().Add(time.Duration(budget) * time.Second)
 	e.runJobs(jobs, gCfg.Workers)
+	gDeadline = time.Time{}
 	exploreT := time.Since(t1)
 
 	onlyRe, skipRe := (*regexp.Regexp)(nil), (*regexp.Regexp)(nil)
